@@ -832,7 +832,8 @@ pub fn compare(b: &mut dyn Backend, m: &TreeModel, focus: Focus, extra: &[usize]
         if focus.metadata {
             let got = b.metadata().map_err(|e| format!("{name}: metadata() failed: {e}"))?;
             if got != m.metadata {
-                return Err(format!("{name}: metadata() = {got:?}, expected {:?}", m.metadata));
+                let show = |b: &[u8]| format!("[{} bytes] {:?}{}", b.len(), &b[..b.len().min(16)], if b.len() > 16 { "…" } else { "" });
+                return Err(format!("{name}: metadata() = {}, expected {}", show(&got), show(&m.metadata)));
             }
             n += 1;
         }
